@@ -91,6 +91,22 @@ def c16_run(rng, stock, cls, width, transport):
     cfg["stock"] = stock
     cfg["transport"] = transport
     steps = [{"op": "start"}, {"op": "idle"}]
+    hist = None if stock else rng.choice([None, None, None, "restart", "restart_early", "abrupt"])
+    if hist == "restart_early" and transport != "tcp":
+        hist = "restart"
+    if hist in ("restart", "restart_early"):
+        # the server had an earlier life: a client of that life, a stop, and serve_forever() again on the same object
+        steps += [{"op": "connect", "c": 90, "w": 80}, {"op": "idle"}, {"op": "line", "c": 90, "text": "num-running"}, {"op": "idle"},
+                  {"op": "stop"}, {"op": "idle"}]
+        if hist == "restart":
+            steps += [{"op": "close", "c": 90, "how": "close"}, {"op": "idle"}, {"op": "restart"}, {"op": "idle"}]
+        else:
+            steps += [{"op": "restart", "early": 1}, {"op": "idle"}]
+    elif hist == "abrupt":
+        # earlier sessions that ended abruptly / never completed their handshake
+        steps += [{"op": "connect", "c": 90, "w": 80}, {"op": "connect", "c": 91, "w": 80, "hs": rng.choice(["garbage", "none", "partial"])},
+                  {"op": "idle"}, {"op": "line", "c": 90, "text": "no-such-command"}, {"op": "idle"},
+                  {"op": "close", "c": 90, "how": rng.choice(["abort", "eof"])}, {"op": "close", "c": 91, "how": "abort"}, {"op": "idle"}]
     nclients = rng.choice([1, 2, 2, 3])
     same = rng.random() < 0.6
     for i in range(nclients):
@@ -99,6 +115,9 @@ def c16_run(rng, stock, cls, width, transport):
         if rng.random() < 0.5:
             steps.append({"op": "run", "n": rng.choice([1, 3, 10])})
     steps.append({"op": "idle"})
+    if hist == "restart_early":
+        # the client of the first life leaves only now: the first serving task completes while the second life serves
+        steps += [{"op": "close", "c": 90, "how": "close"}, {"op": "idle"}, {"op": "connect", "c": nclients + 1, "w": width}, {"op": "idle"}]
     if cls.endswith("x") and rng.random() < 0.5:
         # a second server in the same process for a DIFFERENT class that has the same module and qualified name
         steps += [{"op": "start2", "cfg": {"cls": cls, "variant": 1}}, {"op": "idle"},
@@ -119,6 +138,8 @@ def _c16_check(sim, srv, pool, cls):
     expected_name = (str(pool) + "\n").encode()
     ok_clients = []
     for c in [c for c in sim.clients.values() if c.srv == srv]:
+        if c.gone or c.bad_handshake or c.label >= 90:
+            continue          # clients of the run's earlier history (gone, or deliberately malformed handshakes)
         writes = c.server_writes()
         if not c.connected:
             sim.violate("C16", "connect_failed", f"client {c.label} could not connect: {c.connect_error!r}")
@@ -680,6 +701,8 @@ CtlSim._op_expect_number = _op_expect_number
 def c19_run(rng):
     cfg = base_config(rng, rng.choice(["T", "S"]), frag=0.0)
     cfg["net"]["max_chunk"] = 0
+    if cfg["transport"] == "unix" and rng.random() < 0.25:
+        cfg["stale_socket"] = True
     steps = [{"op": "start"}]
     if rng.random() < 0.8:
         steps.append({"op": "idle"})
@@ -742,7 +765,17 @@ def c19_run(rng):
         steps += [{"op": "idle"}, {"op": "connect", "c": 41, "w": 80}, {"op": "idle"},
                   {"op": "line", "c": 41, "text": "gather-and-close -r"}, {"op": "idle"},
                   {"op": "direct", "m": "gather_and_close", "a": [True]}, {"op": "idle"}]
-    if rng.random() < 0.25:
+    if cfg["transport"] == "tcp" and rng.random() < 0.2:
+        # stop while clients are still connected, then the same server object is started again at once
+        steps += [{"op": "stop"}, {"op": "idle"}, {"op": "restart", "early": 1}, {"op": "idle"}, {"op": "connect", "c": 51, "w": 80}, {"op": "idle"},
+                  {"op": "line", "c": 51, "text": "num-running"}, {"op": "idle"}]
+        if rng.random() < 0.6:
+            # the clients of the first life leave now (its serving task completes while the second life is serving)
+            for lab in labels:
+                steps.append({"op": "close", "c": lab, "how": "close"})
+            steps += [{"op": "idle"}, {"op": "line", "c": 51, "text": "is-locked"}, {"op": "idle"},
+                      {"op": "connect", "c": 52, "w": 80}, {"op": "idle"}, {"op": "line", "c": 52, "text": "num-running"}, {"op": "idle"}]
+    elif rng.random() < 0.25:
         # complete stop (all raw clients leave), then the same server object is started again and must serve again
         steps.append({"op": "stop"})
         for lab in labels:
@@ -891,6 +924,10 @@ def _final_c19(sim):
     sim.run_to_idle()
     if sim.observables() != before:
         sim.violate("C19", "disconnect_changed_pool", f"clients disconnecting changed the pool: {before} -> {sim.observables()}")
+    for t in getattr(sim, "old_tasks", ()):
+        if not t.done():
+            sim.violate("C19", "serving_task_pending", "the serving task of the server's first life (cancelled, then the server was started again) did not complete although every client has gone")
+            return
     if not sim.serving_task.done():
         open_conns = [(ct.conn_id, ct._lost, st._lost) for ct, st in sim.loop.net.conns if not st._lost]
         sim.violate("C19", "serving_task_pending", f"serving task cancelled and every client gone, but it did not complete (server-side connections still open: {open_conns})")
